@@ -122,7 +122,7 @@ impl RelayTransport {
             let num_segments = dm
                 .datagrams
                 .segment_size
-                .map_or(1, |ss| buf_out.len() / u16::from(ss) as usize);
+                .map_or(1, |ss| (buf_out.len() / u16::from(ss) as usize).max(1));
             let datagrams = dm.datagrams.take_segments(num_segments);
             let empty_after = dm.datagrams.contents.is_empty();
             let dm = RelayRecvDatagram {
@@ -144,6 +144,9 @@ impl RelayTransport {
                     segment_size = ?dm.datagrams.segment_size,
                     "dropping received datagram: noq buffer too small"
                 );
+                // Input was consumed without filling a slot: make sure we get polled again,
+                // more datagrams may be queued behind the dropped one.
+                cx.waker().wake_by_ref();
                 break;
                 // In theory we could put some logic in here to fragment the datagram in case
                 // we still have enough room in our `buf_out` left to fit a couple of
